@@ -1,6 +1,7 @@
 package harness
 
 import (
+	"bufio"
 	"bytes"
 	"encoding/json"
 	"fmt"
@@ -79,24 +80,44 @@ func worldC04(w *World) {
 	// the script of list replies
 	nReplies := t.Range(2, 10, "replies")
 	var script [][]string
+	slowID := ""
 	if window {
 		// the dedup window: re-list id0 after 'gap' other distinct IDs (gap <= 998,
 		// so that at most 999 distinct IDs are outstanding in between)
-		gap := []int{997, 998, 500, 998}[t.Choice(4, "gap")]
-		extra := make([]string, gap)
-		for i := range extra {
-			extra[i] = fmt.Sprintf("x%05d", i)
-		}
-		script = append(script, []string{ids[0]})
-		per := []int{100, 499, 998}[t.Choice(3, "perreply")]
-		for i := 0; i < len(extra); i += per {
-			j := i + per
-			if j > len(extra) {
-				j = len(extra)
+		if t.Rare(1, 2, "listed-every-time") {
+			// id0 stays outstanding (slow backend) and is listed in every reply while
+			// more than 1000 other IDs are listed and complete; every listing must keep
+			// it among the recently seen ones
+			w.Probe("relisted_every_time")
+			slowID = ids[0]
+			script = append(script, []string{ids[0]})
+			total := []int{1100, 1500}[t.Choice(2, "others")]
+			per := []int{100, 250}[t.Choice(2, "perreply")]
+			for i := 0; i < total; i += per {
+				rep := []string{ids[0]}
+				for j := i; j < i+per && j < total; j++ {
+					rep = append(rep, fmt.Sprintf("y%05d", j))
+				}
+				script = append(script, rep)
 			}
-			script = append(script, extra[i:j])
+			script = append(script, []string{ids[0]}, ids)
+		} else {
+			gap := []int{997, 998, 500, 998}[t.Choice(4, "gap")]
+			extra := make([]string, gap)
+			for i := range extra {
+				extra[i] = fmt.Sprintf("x%05d", i)
+			}
+			script = append(script, []string{ids[0]})
+			per := []int{100, 499, 998}[t.Choice(3, "perreply")]
+			for i := 0; i < len(extra); i += per {
+				j := i + per
+				if j > len(extra) {
+					j = len(extra)
+				}
+				script = append(script, extra[i:j])
+			}
+			script = append(script, []string{ids[0]}, ids)
 		}
-		script = append(script, []string{ids[0]}, ids)
 		w.Probe("window_relist")
 	} else {
 		for i := 0; i < nReplies; i++ {
@@ -150,7 +171,7 @@ func worldC04(w *World) {
 	fp.OnFetch = func(id string, attempt int, rw http.ResponseWriter) bool {
 		pmu.Lock()
 		defer pmu.Unlock()
-		if strings.HasPrefix(id, "x") {
+		if strings.HasPrefix(id, "x") || strings.HasPrefix(id, "y") {
 			http.NotFound(rw, nil)
 			return true
 		}
@@ -183,6 +204,9 @@ func worldC04(w *World) {
 	fp.Start()
 	cb := startCountingBackend(w)
 	cb.Delay = func(tok string) time.Duration {
+		if tok == slowID && slowID != "" {
+			return 10 * time.Minute // outstanding for the whole run
+		}
 		return []time.Duration{0, 0, 5 * time.Millisecond, 700 * time.Millisecond}[int(tok[len(tok)-1]-'0')%4]
 	}
 	startAgent(w)
@@ -283,8 +307,12 @@ func worldC04b(w *World) {
 	for p := 0; p < nPollers; p++ {
 		p := p
 		abortEvery := 0
+		halfClose := false
 		if faulty {
 			abortEvery = []int{0, 2, 3}[t.Choice(3, "abortevery")]
+			// a poller that shuts down its sending direction right after the list
+			// request (the server sees EOF, the reply is still delivered)
+			halfClose = t.Rare(1, 3, "halfclose")
 		}
 		w.K.Spawn(fmt.Sprintf("poller%d", p), func() {
 			cl := w.Client()
@@ -305,14 +333,35 @@ func worldC04b(w *World) {
 					aborts++
 					mu.Unlock()
 				}
-				resp, err := c2.Do(req)
-				if err != nil {
-					continue
-				}
-				b, err := io.ReadAll(resp.Body)
-				resp.Body.Close()
-				if err != nil || resp.StatusCode != 200 {
-					continue
+				var b []byte
+				if halfClose {
+					w.Probe("half_closed_poller")
+					hc, err := sim.Dial("tcp", "proxy:80")
+					if err != nil {
+						continue
+					}
+					fmt.Fprintf(hc, "GET /agent/pending HTTP/1.1\r\nHost: proxy\r\nX-Inverting-Proxy-Backend-ID: b%d\r\n\r\n", p)
+					hc.(*sim.Conn).CloseWrite()
+					hresp, err := http.ReadResponse(bufio.NewReader(hc), nil)
+					if err != nil {
+						hc.Close()
+						continue
+					}
+					b, err = io.ReadAll(hresp.Body)
+					hc.Close()
+					if err != nil || hresp.StatusCode != 200 {
+						continue
+					}
+				} else {
+					resp, err := c2.Do(req)
+					if err != nil {
+						continue
+					}
+					b, err = io.ReadAll(resp.Body)
+					resp.Body.Close()
+					if err != nil || resp.StatusCode != 200 {
+						continue
+					}
 				}
 				var ids []string
 				if len(b) > 0 {
